@@ -9,4 +9,4 @@ RULE = ("seeded histories of XADD (auto IDs, explicit IDs greater/equal/smaller 
 
 
 def run(tier):
-    return modeldiff.run("C15", tier, "gen:gen_stream_cmd", RULE + "; in 1 of 12 histories the server is saved, killed and restarted on its dump at a random step (IDs must keep increasing across the reload)", check_every=10, hist_len=(30, 150), restart_prob=0.08)
+    return modeldiff.run("C15", tier, "gen:gen_stream_cmd", RULE + "; in 1 of 12 histories the server is saved, killed and restarted on its dump at a random step (IDs must keep increasing across the reload)", check_every=10, hist_len=(30, 150), restart_prob=0.08, script_prob=0.04)
